@@ -593,11 +593,12 @@ func callBroker(m protocol.BrokerMessage, c protocol.Cluster) (res string) {
 // ---------------------------------------------------------------- transport-level scenarios
 
 type scenario struct {
-	r    *rand.Rand
-	c    *fakecluster.Cluster
-	tr   *kafka.Transport
-	boot int32
-	ttl  time.Duration
+	restricted bool // MetadataTopics is set: topics outside it never enter the cache
+	r          *rand.Rand
+	c          *fakecluster.Cluster
+	tr         *kafka.Transport
+	boot       int32
+	ttl        time.Duration
 }
 
 func randomVersions(r *rand.Rand, b *fakecluster.Broker) {
@@ -671,6 +672,18 @@ func newScenario(r *rand.Rand, ttl time.Duration) *scenario {
 	}
 	s := &scenario{r: r, c: c, boot: int32(ids[r.Intn(nb)]), ttl: ttl}
 	s.tr = &kafka.Transport{Dial: c.Dial, MetadataTTL: ttl, DialTimeout: 2 * time.Second, ClientID: "c12"}
+	if r.Intn(4) == 0 { // a transport configured to cache only some topics (possibly one that does not exist)
+		s.restricted = true
+		for n := range c.Topics {
+			if r.Intn(2) == 0 {
+				s.tr.MetadataTopics = append(s.tr.MetadataTopics, n)
+			}
+		}
+		sort.Strings(s.tr.MetadataTopics)
+		if r.Intn(3) == 0 || len(s.tr.MetadataTopics) == 0 {
+			s.tr.MetadataTopics = append(s.tr.MetadataTopics, "ghost")
+		}
+	}
 	return s
 }
 
@@ -999,7 +1012,8 @@ func runScenario(seed int64, steps int) {
 				fmt.Fprintln(os.Stderr, "scenario: refresh after mutation not observed")
 				return
 			}
-		case r.Intn(25) == 0:
+		case r.Intn(25) == 0 && !s.restricted:
+			// (with MetadataTopics set a created topic never enters the cache and roundTrip waits for it until the context ends)
 			s.createTopic()
 		default:
 			s.send(s.randomSpec())
@@ -1201,6 +1215,31 @@ func opRoundTripMeta(seed int64, n int) {
 			}
 			nm = dash(strings.Join(req.TopicNames, ","))
 		}
+		if r.Intn(5) == 0 { // CreateTopics through the transport: when it returns, the cache already lists the new topic
+			cache := c.LastMeta()
+			name := names[r.Intn(7)]
+			if r.Intn(2) == 0 {
+				fresh++
+				name = fmt.Sprintf("made%d", (seed%100)*1000+int64(fresh))
+			}
+			np := 1 + r.Intn(3)
+			ctx, cancel := context.WithTimeout(context.Background(), 5*time.Second)
+			m, err := tr.RoundTrip(ctx, addr, &createtopics.Request{Topics: []createtopics.RequestTopic{{Name: name, NumPartitions: int32(np), ReplicationFactor: 1}}})
+			cancel()
+			op := fmt.Sprintf("rtcreate %s %d %s", name, np, encMeta(cache))
+			if err != nil {
+				emit(op, "err "+errKind(err))
+				continue
+			}
+			code := m.(*createtopics.Response).Topics[0].ErrorCode
+			after, asked, err := rt(&metadata.Request{TopicNames: []string{name}})
+			if err != nil || asked {
+				emit(op, fmt.Sprintf("code=%d after=err", code))
+				continue
+			}
+			emit(op, fmt.Sprintf("code=%d after=%s", code, canonTopics(after.Topics)))
+			continue
+		}
 		req.AllowAutoTopicCreation = r.Intn(2) == 0
 		cache := c.LastMeta()
 		if cache == nil {
@@ -1234,6 +1273,100 @@ func opRoundTripMeta(seed int64, n int) {
 	}
 }
 
+// opVersionSweep: every routed request type × every kind of advertised range, systematically (the random scenarios
+// sample this space): a 3-broker cluster whose leader / coordinator / controller is broker 0 and whose bootstrap
+// broker is another one; for each kind a fresh Transport (versions are negotiated per connection) and one `send`
+// per request type.  Kinds: full range, strict sub-range, beyond the client's maximum, older broker, disjoint above,
+// disjoint below, not listed at all, listed twice (last entry wins), minimum above maximum (malformed).
+func opVersionSweep(r *rand.Rand) {
+	kinds := []string{"full", "sub", "beyond", "older", "above", "below", "hidden", "twice", "inverted"}
+	var pkgs []string
+	for _, l := range [][]string{{"produce", "fetch", "listoffsets"}, groupPkgs, txnPkgs, controllerPkgs, resourcePkgs, {"listgroups"}, anyPkgs} {
+		pkgs = append(pkgs, l...)
+	}
+	for _, kind := range kinds {
+		c := fakecluster.New()
+		for id := int32(0); id < 3; id++ {
+			b := c.AddBroker(id)
+			b.Versions = map[protocol.ApiKey]fakecluster.VRange{}
+			b.Hidden = map[protocol.ApiKey]bool{}
+			for _, k := range fakecluster.RegisteredKeys() {
+				cmin, cmax := k.MinVersion(), k.MaxVersion()
+				if k == protocol.ApiVersions || k == protocol.Metadata || k == protocol.FindCoordinator {
+					continue // plumbing stays at the full range (v0 metadata has no controller, v0 FindCoordinator no key type)
+				}
+				switch kind {
+				case "sub":
+					lo := cmin + (cmax-cmin)/3
+					b.Versions[k] = fakecluster.VRange{Min: lo, Max: lo + (cmax-lo)/2}
+				case "beyond":
+					b.Versions[k] = fakecluster.VRange{Min: cmin, Max: cmax + 3}
+				case "older":
+					b.Versions[k] = fakecluster.VRange{Min: 0, Max: cmin + (cmax-cmin)/2}
+				case "above":
+					b.Versions[k] = fakecluster.VRange{Min: cmax + 1, Max: cmax + 2}
+				case "below":
+					if cmin > 0 {
+						b.Versions[k] = fakecluster.VRange{Min: 0, Max: cmin - 1}
+					}
+				case "hidden":
+					b.Hidden[k] = true
+				case "twice":
+					b.Versions[k] = fakecluster.VRange{Min: cmin, Max: cmax}
+					b.ExtraVersions = append(b.ExtraVersions, apiversions.ApiKeyResponse{ApiKey: int16(k), MinVersion: cmin, MaxVersion: cmin + (cmax-cmin)/2})
+				case "inverted":
+					b.Versions[k] = fakecluster.VRange{Min: cmax, Max: cmin}
+				}
+			}
+		}
+		c.Controller = 0
+		c.Topics["t"] = &fakecluster.Topic{Parts: map[int32]*fakecluster.Part{0: {Leader: 0, Replicas: []int32{0}, Isr: []int32{0}}, 1: {Leader: 0, Replicas: []int32{0}, Isr: []int32{0}}}}
+		// partitions the metadata designates no broker for: no leader (−1) and a leader id that is not a listed broker
+		c.Topics["nl"] = &fakecluster.Topic{Parts: map[int32]*fakecluster.Part{0: {Leader: -1}, 1: {Leader: 8}, 2: {Leader: 2, Replicas: []int32{2}, Isr: []int32{2}}}}
+		for i := 0; i < 6; i++ {
+			c.GroupCoord["g"+strconv.Itoa(i)] = 0
+			c.TxnCoord["x"+strconv.Itoa(i)] = 0
+		}
+		s := &scenario{r: r, c: c, boot: 1 + int32(r.Intn(2)), ttl: 5 * time.Second}
+		s.tr = &kafka.Transport{Dial: c.Dial, MetadataTTL: s.ttl, DialTimeout: 2 * time.Second, ClientID: "c12sweep"}
+		ctx, cancel := context.WithTimeout(context.Background(), 5*time.Second)
+		_, err := s.tr.RoundTrip(ctx, kafka.TCP(c.Brokers[s.boot].Addr()), &metadata.Request{})
+		cancel()
+		if err == nil {
+			for _, pkg := range pkgs {
+				spec := reqSpec{pkg: pkg}
+				switch {
+				case pkg == "produce" || pkg == "fetch" || pkg == "listoffsets":
+					spec.tps = []tp{{"t", []int32{0, 1}}}
+				case pkg == "describegroups" || pkg == "deletegroups":
+					spec.groups = []string{"g1", "g2"}
+				case pkg == "findcoordinator" || pkg == "apiversions":
+					spec.group = "g1"
+				case pkg == "describeconfigs" || pkg == "incrementalalterconfigs":
+					spec.resources = [][2]string{{"4", "0"}, {"2", "t"}}
+				}
+				for _, g := range groupPkgs {
+					if g == pkg && spec.groups == nil {
+						spec.group = "g1"
+					}
+				}
+				for _, x := range txnPkgs {
+					if x == pkg {
+						spec.txn = "x1"
+					}
+				}
+				s.send(spec)
+			}
+			for _, pkg := range []string{"listoffsets", "produce", "fetch"} {
+				s.send(reqSpec{pkg: pkg, tps: []tp{{"nl", []int32{0}}}})
+				s.send(reqSpec{pkg: pkg, tps: []tp{{"nl", []int32{1, 2}}}})
+				s.send(reqSpec{pkg: pkg, tps: []tp{{"nl", []int32{2}}, {"t", []int32{0}}}})
+			}
+		}
+		s.close()
+	}
+}
+
 func main() {
 	defer out.Flush()
 	r := gen.New()
@@ -1249,6 +1382,7 @@ func main() {
 	for i := 0; i < nScen/4+1; i++ {
 		opRoundTripMeta(gen.Seed()*100+int64(i), 25)
 	}
+	opVersionSweep(r)
 	nFollow := 8
 	if gen.Thorough() {
 		nFollow = 40
